@@ -16,7 +16,35 @@ def main():
             bad += 1
             print("unit %-12s FAILED: %s" % (u, e))
     # setup never fails the harness on a lost anchor: that is reported by the checks themselves (exit 2)
+    if "--alarm" in sys.argv:
+        return alarm_selftest()
     return 0
+
+
+def alarm_selftest():
+    """The machinery must still ALARM: apply the seeded change C01-a (check_motion no longer validates `to`) to a scratch copy of
+    /repo's working tree and require `check.py C01` to exit 1 there.  Skipped (not failed) when the patch does not apply to the
+    tree under check.  Guards against an edit of the checking scripts that silently drops violations."""
+    import shutil, subprocess, tempfile
+    verif = os.path.dirname(os.path.dirname(os.path.abspath(__file__)))
+    patch = os.path.join(verif, "seeded", "C01-a", "patch.diff")
+    d = tempfile.mkdtemp(prefix="vselftest-")
+    try:
+        wt = os.path.join(d, "repo")
+        shutil.copytree(os.environ.get("VERIF_REPO", "/repo"), wt, ignore=shutil.ignore_patterns("target", ".git"))
+        a = subprocess.run(["patch", "-p1", "-s", "-i", patch], cwd=wt, capture_output=True, text=True)
+        if a.returncode != 0:
+            print("alarm self-test skipped: seeded/C01-a/patch.diff does not apply to this tree")
+            return 0
+        env = dict(os.environ, VERIF_REPO=wt, VERIF_EVIDENCE_DIR=os.path.join(d, "ev"), VERIF_REPLAY_DIR=os.path.join(d, "rp"))
+        r = subprocess.run([sys.executable, os.path.join(verif, "vf", "check.py"), "C01"], capture_output=True, text=True, env=env, cwd=verif)
+        if r.returncode == 1 and "VIOLATION property=C01" in r.stdout:
+            print("alarm self-test ok: the seeded change C01-a is reported")
+            return 0
+        print("alarm self-test FAILED: check.py C01 exits %d on a tree with the seeded change C01-a\n%s" % (r.returncode, r.stdout[-600:]))
+        return 3
+    finally:
+        shutil.rmtree(d, ignore_errors=True)
 
 if __name__ == "__main__":
     sys.exit(main())
